@@ -130,8 +130,8 @@ func genC12(t *rapid.T) c12Case {
 	return c
 }
 
-// c12Kind: the second property of a fact, one of two values, a function of
-// the fact's (unique) value.
+// c12Kind: the name of the second property of a fact, one of two, a function
+// of the fact's (unique) value.
 func c12Kind(v string) string {
 	if n := len(v); n > 0 && (v[n-1]-'0')%2 == 0 {
 		return "ka"
@@ -326,12 +326,13 @@ func c12ExecNoisy(loc *core.Location, in c12In, noise *schedNoise) c12Out {
 	}
 	switch in.K {
 	case "addFact":
-		_, err := loc.AddFact(ctx, in.Id, core.Map{"v": in.V, "kind": c12Kind(in.V)})
+		_, err := loc.AddFact(ctx, in.Id, core.Map{"v": in.V, c12Kind(in.V): "1"})
 		return c12Out{Err: errStr(err)}
 	case "searchKind":
-		// a search for a value: overwritten facts leave entries for
-		// their old values behind in the term index
-		srs, err := loc.SearchFacts(ctx, core.Map{"kind": "ka"}, false)
+		// a search for a property that only some versions of a fact
+		// have: overwritten facts leave entries for their old terms
+		// behind in the term index, also after they are removed
+		srs, err := loc.SearchFacts(ctx, core.Map{"ka": "?x"}, false)
 		if err != nil {
 			return c12Out{Err: errStr(err)}
 		}
